@@ -123,7 +123,7 @@ class C07(Prop):
     module = 'c07'
     title = 'The executor finishes each task exactly once'
     props_files = ['Props/C07.v']
-    extra_targets = ['Exec/Oracle.vo']
+    extra_targets = ['Exec/Oracle.vo', 'Exec/CancelProofs.vo']
     model_targets = ['Exec/Oracle.vo']
     translators = []
     header = 'From RP Require Import Exec.Model Exec.Oracle.'
